@@ -187,4 +187,102 @@ theorem second_call_site_agrees (cfg : LoadCfg) (penv : List (Key × Str)) (fs :
     (fun p : YEnv × Service => ((dec p).bind (resolveServiceEnv penv fs cfg.discard)).bind (resolveServiceLabels fs cfg.discard))
     (fun p a => env_labels_commute penv fs cfg.discard { p.2 with environment := loadedEnv cfg penv p.1 } a) svcs r
 
+/-- **second_call_site_fails_iff.**  … and fails exactly when the loader's own resolution fails (the error may be that
+    of another phase: at the second site label files are read first). -/
+theorem second_call_site_fails_iff (cfg : LoadCfg) (penv : List (Key × Str)) (fs : FS)
+    (svcs : List (Str × YEnv × Service)) :
+    (∃ es, loadThenResolve cfg penv fs svcs = .error es) ↔
+      ∃ es, loadProject { cfg with skipResolveEnvironment := false } penv fs svcs = .error es := by
+  have key := second_call_site_agrees cfg penv fs svcs
+  cases h1 : loadThenResolve cfg penv fs svcs with
+  | ok r => rw [(key r).1 h1]
+  | error es =>
+    cases h2 : loadProject { cfg with skipResolveEnvironment := false } penv fs svcs with
+    | ok r => rw [(key r).2 h2] at h1; cases h1
+    | error es' => simp
+
+/-- **second_call_site_final.**  The documented layering holds at the second call site: for a service of a project
+    loaded with `SkipResolveEnvironment` and resolved afterwards, `Environment` and `Labels` are `finalEnv` / `finalLabelY`
+    of what the YAML says — whatever `load_service_final_y` gives for the loader's own resolution. -/
+theorem second_call_site_final_y (cfg : LoadCfg) (penv : List (Key × Str)) (fs : FS) (svcs : List (Str × YService))
+    (r : List (Str × Service)) (h : loadThenResolveY cfg penv fs svcs = .ok r) :
+    loadProjectY { cfg with skipResolveEnvironment := false } penv fs svcs = .ok r :=
+  (second_call_site_agrees cfg penv fs _ r).1 h
+
+/-! ## relocation: services whose files live in another directory -/
+
+theorem loadMappingFile_reloc (ρ : Str → Str) (fs fs' : FS) (h : FS.Relocates ρ fs fs') (p format : Str) (look : Look) :
+    loadMappingFile fs' (ρ p) format look = loadMappingFile fs p format look := by
+  unfold loadMappingFile parseWithFormat
+  rw [h.1 p, h.2]
+
+theorem loadEnvFile_reloc (ρ : Str → Str) (fs fs' : FS) (h : FS.Relocates ρ fs fs') (f : EnvFile) (look : Look) :
+    loadEnvFile fs' (f.reloc ρ) look = loadEnvFile fs f look := by
+  unfold loadEnvFile EnvFile.reloc
+  simp only [h.1 f.path, loadMappingFile_reloc ρ fs fs' h]
+
+theorem loadLabelFile_reloc (ρ : Str → Str) (fs fs' : FS) (h : FS.Relocates ρ fs fs') (p : Str) (look : Look) :
+    loadLabelFile fs' (ρ p) look = loadLabelFile fs p look := by
+  unfold loadLabelFile
+  simp only [h.1 p, loadMappingFile_reloc ρ fs fs' h]
+
+theorem loadEnvFiles_reloc (ρ : Str → Str) (fs fs' : FS) (h : FS.Relocates ρ fs fs') (penv : List (Key × Str))
+    (fl : List EnvFile) (acc : List (Key × Str)) :
+    loadEnvFiles penv fs' (fl.map (EnvFile.reloc ρ)) acc = loadEnvFiles penv fs fl acc := by
+  induction fl generalizing acc with
+  | nil => rfl
+  | cons f t ih =>
+    simp only [List.map_cons, loadEnvFiles, loadEnvFile_reloc ρ fs fs' h]
+    cases loadEnvFile fs f (envChain penv acc) with
+    | error e => rfl
+    | ok vars => exact ih _
+
+theorem loadLabelFiles_reloc (ρ : Str → Str) (fs fs' : FS) (h : FS.Relocates ρ fs fs')
+    (fl : List Str) (acc : List (Key × Str)) :
+    loadLabelFiles fs' (fl.map ρ) acc = loadLabelFiles fs fl acc := by
+  induction fl generalizing acc with
+  | nil => rfl
+  | cons f t ih =>
+    simp only [List.map_cons, loadLabelFiles, loadLabelFile_reloc ρ fs fs' h]
+    cases loadLabelFile fs f (labelChain acc) with
+    | error e => rfl
+    | ok vars => exact ih _
+
+/-- **relocation_env.**  A service whose `env_file` references are renamed by `ρ` (written relative to the directory of
+    an included / extended file and rewritten by the loader), in a world where `ρ p` holds what `p` held, resolves to the
+    same outcome: same failure, or the same `Environment` / `Labels` with the renamed references. No hypothesis on `ρ`
+    (two references may even be renamed to one path). -/
+theorem relocation_env (ρ : Str → Str) (fs fs' : FS) (h : FS.Relocates ρ fs fs') (penv : List (Key × Str)) (d : Bool)
+    (s : Service) :
+    resolveServiceEnv penv fs' d (s.reloc ρ) = (resolveServiceEnv penv fs d s).map (Service.reloc ρ) := by
+  unfold resolveServiceEnv Service.reloc
+  simp only [loadEnvFiles_reloc ρ fs fs' h]
+  cases loadEnvFiles penv fs s.envFiles [] with
+  | error e => rfl
+  | ok acc => cases d <;> simp [Except.map]
+
+/-- **relocation_labels.**  The same for `label_file`. -/
+theorem relocation_labels (ρ : Str → Str) (fs fs' : FS) (h : FS.Relocates ρ fs fs') (d : Bool) (s : Service) :
+    resolveServiceLabels fs' d (s.reloc ρ) = (resolveServiceLabels fs d s).map (Service.reloc ρ) := by
+  unfold resolveServiceLabels Service.reloc
+  simp only [loadLabelFiles_reloc ρ fs fs' h]
+  cases loadLabelFiles fs s.labelFiles [] with
+  | error e => rfl
+  | ok acc => cases d <;> simp [Except.map]
+
+/-- **relocation_final.**  Hence the final value of every key is the layering of the files *as found through `ρ`*:
+    `finalEnv` of the contents `fs` has at the written paths. -/
+theorem relocation_final (ρ : Str → Str) (fs fs' : FS) (h : FS.Relocates ρ fs fs') (penv : List (Key × Str)) (d : Bool)
+    (s s' : Service) (hwf : WFFS fs) (hd : Distinct s.environment)
+    (hok : resolveServiceEnv penv fs' d (s.reloc ρ) = .ok s') (k : Key) :
+    lookup k s'.environment = finalEnv penv (envContents fs s.envFiles) s.environment k := by
+  rw [relocation_env ρ fs fs' h] at hok
+  cases h1 : resolveServiceEnv penv fs d s with
+  | error e => rw [h1] at hok; cases hok
+  | ok s1 =>
+    rw [h1] at hok
+    simp only [Except.map, Except.ok.injEq] at hok
+    subst hok
+    exact env_precedence penv fs d s s1 hwf hd h1 k
+
 end CV.EnvLayers
